@@ -212,7 +212,12 @@ func Run(r *core.Run) {
 			func(v any) M { return M{"action": "add-also-known-as", "uris": v} }},
 		{"NewRemoveAlsoKnownAs", patch.NewRemoveAlsoKnownAs, "remove-also-known-as", []string{"[" + a[1] + "]"}, []string{"not json", `[]`, `5`},
 			func(v any) M { return M{"action": "remove-also-known-as", "uris": v} }},
-		{"NewJSONPatch", patch.NewJSONPatch, "ietf-json-patch", []string{`[{"op":"add","path":"/x","value":1}]`, `[{"op":"remove","path":"/x"},{"op":"test","path":"/y","value":null}]`}, []string{"not json", `{"op":"add"}`},
+		{"NewJSONPatch", patch.NewJSONPatch, "ietf-json-patch", []string{`[{"op":"add","path":"/x","value":1}]`, `[{"op":"remove","path":"/x"},{"op":"test","path":"/y","value":null}]`,
+			// pointers with escapes at every place of a token (RFC 6901: ~0 is '~', ~1 is '/'), empty tokens, the root, long and non-ASCII tokens
+			`[{"op":"add","path":"/dir~1","value":1}]`, `[{"op":"add","path":"/~0","value":1}]`, `[{"op":"add","path":"/~1","value":1}]`, `[{"op":"add","path":"/a~0~1","value":1}]`,
+			`[{"op":"add","path":"/https:~1~1example.com~1","value":{"n":1}}]`, `[{"op":"add","path":"/~01","value":1},{"op":"add","path":"/a~1b/c","value":1}]`,
+			`[{"op":"move","from":"/m~1","path":"/n~0"}]`, `[{"op":"copy","from":"/~0","path":"/x/~1"}]`, `[{"op":"add","path":"/","value":1},{"op":"add","path":"//","value":1}]`,
+			`[{"op":"add","path":"/a//b","value":1}]`, `[{"op":"test","path":"","value":{}}]`, `[{"op":"add","path":"/é€😀","value":"x"}]`, `[{"op":"add","path":"/a b/ c ","value":null}]`}, []string{"not json", `{"op":"add"}`},
 			func(v any) M { return M{"action": "ietf-json-patch", "patches": v} }},
 		{"NewReplacePatch", patch.NewReplacePatch, "replace", []string{`{"publicKeys":[` + k[0] + `],"services":[` + s[1] + `]}`, `{"publicKeys":[` + k[1] + `]}`, `{}`}, []string{"not json", `[1]`, `{"other":1}`, `{"publicKeys":[],"alsoKnownAs":[]}`},
 			func(v any) M { return M{"action": "replace", "document": v} }},
